@@ -119,17 +119,28 @@ func (fd *FieldData) StringValues() ([]string, error) {
 	if fd == nil || len(fd.data) == 0 {
 		return nil, ErrTagNotFound
 	}
-	s, err := sliceValue(fd, csproto.WireTypeLengthDelimited, fd.stringSlice, func(data []byte) (string, int, error) {
+	if fd.wt != csproto.WireTypeLengthDelimited {
+		return nil, wireTypeMismatchError(fd.wt, csproto.WireTypeLengthDelimited)
+	}
+	// one string per occurrence of the field, including empty strings
+	s := fd.stringSlice
+	if s != nil {
+		s = s[:0]
+	} else {
+		s = make([]string, 0, len(fd.data))
+	}
+	for _, data := range fd.data {
 		if fd.unsafe {
-			return unsafe.String(unsafe.SliceData(data), len(data)), len(data), nil
+			s = append(s, unsafe.String(unsafe.SliceData(data), len(data)))
+		} else {
+			s = append(s, string(data))
 		}
-		return string(data), len(data), nil
-	})
+	}
 	if fd.unsafe {
 		fd.maxCap = max(fd.maxCap, cap(s))
 		fd.stringSlice = s
 	}
-	return s, err
+	return s, nil
 }
 
 // BytesValue converts the lazily-decoded field data into a []byte.
